@@ -19,7 +19,7 @@ TIME_BUDGET = {'quick': 150, 'thorough': 1500}
 REQUIRED = {
     'quick': {'death_with_unread_result': 100, 'death_while_enqueueing': 100, 'all_dead': 100, 'poison_reaches_every_worker': 20,
               'refusing_enqueue_fn': 100, 'extra_pending_multi_worker': 100, 'per_worker_callable_source': 100, 'realpool': 30, 'realpool_sigkill': 8,
-              'equal_inputs_and_death': 100, 'transient_enqueue_failure': 100, 'enqueue_to_lingering_dead_worker': 50},
+              'equal_inputs_and_death': 100, 'transient_enqueue_failure': 100, 'enqueue_to_lingering_dead_worker': 50, 'enqueue_raises_on_lingering_dead_worker': 50},
     'thorough': {'death_with_unread_result': 1000, 'death_while_enqueueing': 1000, 'all_dead': 1000, 'poison_reaches_every_worker': 200,
                  'refusing_enqueue_fn': 1000, 'extra_pending_multi_worker': 1000, 'per_worker_callable_source': 1000},
 }
@@ -60,6 +60,7 @@ def dfs_configs(tier):
     cfgs.append(dict(base, workers=2, inputs=[1, 0, 0], extra=1, kills=1, kill_marker=True))
     cfgs.append(dict(base, workers=2, inputs=[0, 1], extra=0, kills=1, kill_marker=False, flaky=[[0, 0]]))
     cfgs.append(dict(base, workers=2, inputs=[0, 1, 2], extra=0, kills=1, kill_marker=True, linger=True))
+    cfgs.append(dict(base, workers=2, inputs=[0, 1, 2, 3], extra=0, kills=1, kill_marker=False, linger=True, linger_checks=4))
     # termination clause with retry disabled (small configurations)
     for cfg in list(cfgs):
         if len(cfg['inputs']) + cfg['workers'] <= (4 if tier == 'quick' else 5):
